@@ -126,7 +126,7 @@ def _fd_jacobian(func, values, kwargs, out_shape, f0=None):
         # this oracle at this point and the call is not judged
         dprev = (4 * d2 - d1) / 3
         err = np.max(np.abs(d - dprev))
-        if not np.all(np.isfinite(d)) or err > 1e-7 * (np.max(np.abs(d)) + 1e-3):
+        if not np.all(np.isfinite(d)) or not np.all(np.isfinite(d1)) or not np.isfinite(err) or err > 1e-7 * (np.max(np.abs(d)) + 1e-3):
             raise FloatingPointError('finite-difference gradient not reliable')
         jac[(Ellipsis,) + idx] = d
     return jac
@@ -1087,6 +1087,8 @@ def case_tree(ctx, rng, tier, klass):
     # floor for the comparison of covariance-input gradients: a total derivative that cancels to ~1e-100
     # must not turn rounding into a verdict
     gfl = max([0.0] + [float(np.max(np.abs(c[1]))) for sn_ in snaps_u for c in sn_['cov'].values() if c[1].size]) * (1.0 + max(abs(x) for x in g_u))
+    # central value: rounding of the step-wise evaluation is proportional to the size of the terms, not to a result that cancels
+    vsc = max(abs(ref['value']), float(sum(abs(g_) * abs(s_['value']) for g_, s_ in zip(g_u, snaps_u))), max(abs(s_['value']) for s_ in snaps_u))
     ctx.count('L3_trees')
     ctx.cell('L3', klass, 'depth%d' % depth)
     # (a) step by step
@@ -1095,11 +1097,11 @@ def case_tree(ctx, rng, tier, klass):
     if not is_obs(a):
         raise Skip()
     rv = None  # replica means of stepwise evaluation: f(replica means) as well
-    compare_obs(ctx, a, ref, 'L3:stepwise', scale=scale, rtol=1e-10, vtol=1e-11, what=klass, rv_tol=1e-10, grad_floor=gfl)
+    compare_obs(ctx, a, ref, 'L3:stepwise', scale=scale, rtol=1e-10, vtol=1e-11, what=klass, rv_tol=1e-10, grad_floor=gfl, value_scale=vsc)
     # (b) re-associated
     t2 = reassociate(rng, t)
     b = ev_generic(t2, leaves, olib)
-    compare_obs(ctx, b, ref, 'L3:reassociated', scale=scale, rtol=1e-10, vtol=1e-11, what=klass, rv_tol=1e-10, grad_floor=gfl)
+    compare_obs(ctx, b, ref, 'L3:reassociated', scale=scale, rtol=1e-10, vtol=1e-11, what=klass, rv_tol=1e-10, grad_floor=gfl, value_scale=vsc)
     # (c) one derived_observable call with autograd, (d) with numerical gradient
     alib = _obs_lib(anp)
     ul = [leaves[i] for i in used]
@@ -1110,10 +1112,29 @@ def case_tree(ctx, rng, tier, klass):
             full[i] = x[k]
         return ev_generic(t, full, alib)
     c = PE.derived_observable(func, ul)
-    compare_obs(ctx, c, ref, 'L3:one-call-autograd', scale=scale, rtol=1e-10, vtol=1e-11, what=klass, rv_tol=1e-10, grad_floor=gfl)
+    compare_obs(ctx, c, ref, 'L3:one-call-autograd', scale=scale, rtol=1e-10, vtol=1e-11, what=klass, rv_tol=1e-10, grad_floor=gfl, value_scale=vsc)
     if rng.random() < 0.5:
+        # numdifftools differences the function over steps up to 0.1 (times log(1 + |x|) for large x): the comparison is only meaningful
+        # where the function is smooth over that range ("away from its singularities"): the exact gradient at the displaced points
+        # must stay within a factor two of the gradient at the point
+        smooth = True
+        for k_, i_ in enumerate(used):
+            step = 0.1 * max(1.0, math.log1p(abs(leaves[i_].value)))
+            for sg in (-1.0, 1.0):
+                try:
+                    dl = [Dual(leaves[j].value + (sg * step if j == i_ else 0.0), np.eye(n)[j]) for j in range(n)]
+                    dv = ev_generic(t, dl, _dual_lib(n))
+                    gv = np.array([float(dv.g[j]) for j in used])
+                    if not (isinstance(dv, Dual) and math.isfinite(dv.v) and np.all(np.isfinite(gv))) or \
+                            np.max(np.abs(gv - np.array(g_u))) > 1.0 * (np.max(np.abs(g_u)) + 1e-3):
+                        smooth = False
+                except (OverflowError, ValueError, ZeroDivisionError):
+                    smooth = False
         dd = PE.derived_observable(func, ul, num_grad=True)
-        compare_obs(ctx, dd, ref, 'L3:one-call-num_grad', scale=scale, rtol=1e-6, vtol=1e-11, what=klass, rv_tol=1e-10, grad_floor=gfl)
+        if smooth:
+            compare_obs(ctx, dd, ref, 'L3:one-call-num_grad', scale=scale, rtol=1e-6, vtol=1e-11, what=klass, rv_tol=1e-10, grad_floor=gfl, value_scale=vsc)
+        else:
+            ctx.count('L3_num_grad_not_judged_function_not_smooth_over_the_difference_steps')
     if any(np.any(s['chains'][cn][1] != 0) for s in snaps_u for cn in s['chains']) and tree_size(t) >= 3:
         ctx.nontrivial.add(digest('L3', repr(t), [s['value'] for s in snaps_u]))
     ctx.sample({'tree': repr(t)[:300], 'class': klass, 'leaves': [l.names for l in leaves]})
